@@ -163,3 +163,54 @@ fn c07_ssh_disconnect() {
     std::mem::forget(_tx);
     model::forget_tasks();
 }
+
+// =================================================================================================
+// C20 (narrow): the password type never formats its content.
+
+struct Sink {
+    len: usize,
+    buf: [u8; 40],
+}
+
+impl std::fmt::Write for Sink {
+    fn write_str(&mut self, s: &str) -> std::fmt::Result {
+        let b = s.as_bytes();
+        let mut i = 0;
+        while i < b.len() {
+            if self.len < 40 {
+                self.buf[self.len] = b[i];
+                self.len += 1;
+            }
+            i += 1;
+        }
+        Ok(())
+    }
+}
+
+/// C20: `Debug` output of `Password` is `Password("****")` whatever the secret is (here: every
+/// 2-byte secret, including quotes and non-ASCII lead bytes), so that `#[instrument]`ed
+/// functions and `?password` fields log nothing of it.
+#[kani::proof]
+#[kani::unwind(24)]
+fn c20_password_debug_is_redacted() {
+    use std::fmt::Write as _;
+    let b0: u8 = kani::any();
+    let b1: u8 = kani::any();
+    kani::assume(b0 < 0x80 && b1 < 0x80);
+    let mut s = String::with_capacity(2);
+    s.push(b0 as char);
+    s.push(b1 as char);
+    let p = Password(s);
+    let mut sink = Sink { len: 0, buf: [0; 40] };
+    let r = write!(sink, "{:?}", p);
+    assert!(r.is_ok());
+    let want = b"Password(\"****\")";
+    assert!(sink.len == want.len(), "C20: Debug output of Password has an unexpected length (content leaked?)");
+    let mut i = 0;
+    while i < 16 {
+        assert!(sink.buf[i] == want[i], "C20: Debug output of Password is not the redacted form");
+        i += 1;
+    }
+    kani::cover!(b0 == b'"', "secret containing a quote");
+    std::mem::forget(p);
+}
